@@ -122,7 +122,8 @@ type Response struct {
 	Panic      string `json:"panic,omitempty"` // panic value
 	Sig        string `json:"sig,omitempty"`   // innermost /repo function + class
 	Err        string `json:"err,omitempty"`   // library error (clean rejection)
-	CPUms      int64  `json:"cpu_ms"`          // CPU time of the decoding thread
+	CPUms      int64  `json:"cpu_ms"`          // user-mode CPU time of the decoding thread
+	Hung       bool   `json:"hung,omitempty"`  // the decode had not returned after the worker's hang limit; the worker exited
 	WallMs     int64  `json:"wall_ms"`
 	TotalAlloc uint64 `json:"total_alloc"` // bytes allocated during the call (cumulative)
 	PeakHeap   uint64 `json:"peak_heap"`   // sampled peak of live heap growth over the pre-call baseline
